@@ -65,7 +65,7 @@ def assocAll (s : St) (c : Nat) : List Nat → Except String (List Row)
 
 def regColl (s : St) (c : Nat) (t : CType) : St × String :=
   match s.ctype c with
-  | some _ => (s, "False")                       -- get-or-create; an existing name is returned whatever its type
+  | some t' => if t' == t then (s, "False") else (s, "err ConflictingDefinitionError")   -- get-or-create; another type is a conflict
   | none => ({ s with colls := (c, t) :: s.colls }, "True")
 
 def regType (s : St) (t defn : Nat) : St × String :=
